@@ -771,8 +771,8 @@ def weave(repo: Repo, chk: Check) -> None:
     for s in fl.calls("SetupOp"):
         call = s.node
         assert isinstance(call, ast.Call)
-        if not any(s.stmt is st or _contains(st, s.stmt) for st in setup_body):
-            continue
+        if not any(x is st or _contains(st, x) for st in setup_body for x in (s.stmt, *s.callers)):
+            continue  # neither in the SetupOp branch nor in a helper called from it
         if len(call.args) < 4:
             continue
         ex = [s.expand(a) for a in call.args[:4]]
